@@ -218,6 +218,43 @@ def rule_assess(ctx):
                 else:
                     r.violation(key, C.loc(f, call), "a reported trial is not (immediately) "
                                 "yielded/returned for comparison against the best")
+    # (i') (sensitivity map) the converse: every trial handed to the assessment loop was recorded — in the two
+    # places where a finished trial comes into being (serial: the result of the trial function; pool:
+    # `future.result()`) every path to the hand-out passes `_maybe_report_result`
+    for gname in ("_gen_results", "_get_and_report_next_future"):
+        g = hc.lookup(gname)
+        if g is None:
+            continue
+        fl = ctx.flow(g)
+        key = ctx.key(g, "C08-ASSESS", "recorded-before-handed-out")
+        births = []
+        for n in walk_local(g.node):
+            if isinstance(n, ast.Assign) and isinstance(n.targets[0], ast.Name) and isinstance(n.value, ast.Call):
+                fn_ = n.value.func
+                if (isinstance(fn_, ast.Attribute) and fn_.attr == "result") or \
+                        (isinstance(fn_, ast.Name) and fn_.id in g.params and fn_.id != "self"):
+                    births.append(n)
+        reps_ = [fl.cfg.containing(c_, g.module.parents).id for c_ in C.method_calls(g, "_maybe_report_result")]
+        outs = []
+        for n in walk_local(g.node):
+            if isinstance(n, ast.Return) and n.value is not None:
+                outs.append(n)
+            if isinstance(n, ast.Expr) and isinstance(n.value, ast.Yield) and n.value.value is not None:
+                outs.append(n)
+        if not births or not outs:
+            raise AnalysisError(f"{gname}: where a finished trial comes into being / is handed out was not recognised")
+        bad = None
+        for b_ in births:
+            bn = fl.cfg.containing(b_, g.module.parents)
+            for o_ in outs:
+                on = fl.cfg.containing(o_, g.module.parents)
+                if on.id in fl.cfg.reachable_from_succs(bn.id) and not fl.cfg.all_paths_pass(bn.id, reps_, dst=on.id):
+                    bad = o_
+        if bad is not None:
+            r.violation(key, C.loc(g, bad), "a finished trial can be handed to the assessment loop without having been recorded "
+                        "(_maybe_report_result): it can become `best` while scores / costs / the sampler never saw it")
+        else:
+            r.ok(key, g.loc, "every finished trial is recorded before it is handed out")
     # (ii) guarded best update
     srch = hc.lookup("_search")
     C.require(srch is not None, "HyperOptimizer._search not found")
